@@ -360,6 +360,26 @@ static void resp_case(FILE * f, int code, int hasinfo, const char * text, size_t
     release_all();
 }
 
+#if USE_DEVICE_DEPENDENT_ERROR_INFORMATION && !USE_MEMORY_ALLOCATION_FREE
+/* static heap: the text and its terminator fill the heap exactly to its last byte; the source is not NUL-terminated there */
+static void resp_case_exact(FILE * f, int code, const char * text, size_t tlen) {
+    char * tmp = malloc(tlen + 2);
+    fresh();
+    SCPI_InitHeap(&ctx, heapbuf, tlen + 1);
+    memcpy(tmp, text, tlen); tmp[tlen] = 'Z'; tmp[tlen + 1] = 'Z';
+    SCPI_ErrorPushEx(&ctx, (int16_t) code, tmp, tlen);
+    __real_free(tmp);
+    outn = 0;
+    SCPI_Input(&ctx, "SYST:ERR?\n", 10);
+    fprintf(f, "{\"code\":%d,\"has\":1,\"text\":", code);
+    print_bytes(f, text, tlen);
+    fprintf(f, ",\"info\":%d,\"cnt\":%d,\"out\":", infobuild(), (int) SCPI_ErrorCount(&ctx));
+    print_bytes(f, outb, outn);
+    fprintf(f, "}\n");
+    release_all();
+}
+#endif
+
 static int resp(unsigned long seedv, const char * tier, const char * outpath) {
     FILE * f = fopen(outpath, "w");
     static const int codes[] = {-113, 0, -100, -350, -363, -200, 1, 12345, -1, -32768, 32767, -321, -440};
@@ -372,6 +392,9 @@ static int resp(unsigned long seedv, const char * tier, const char * outpath) {
     for (c = 0; c < 13; c++) { resp_case(f, codes[c], 0, "", 0); n++; }
     /* every code around the description table, with and without a short text */
     for (c = -900; c <= 40; c++) { resp_case(f, c, 0, "", 0); resp_case(f, c, 1, "t\"x", 3); n += 2; }
+#if USE_DEVICE_DEPENDENT_ERROR_INFORMATION && !USE_MEMORY_ALLOCATION_FREE
+    for (len = 1; len <= 40; len++) { memset(text, 'a' + (len % 20), len); if (len > 3) text[2] = '"'; resp_case_exact(f, -113, text, len); n++; }
+#endif
     /* every length around the boundary, quotes at every position relative to it */
     for (c = 0; c < (thorough ? 13 : 4); c++) {
         size_t dl = strlen(SCPI_ErrorTranslate((int16_t) codes[c]));
